@@ -191,7 +191,16 @@ array_accessor:
 	;
 
 any_level:
-	INT_P							{ $$, _ = strconv.Atoi($1) }
+	INT_P
+		{
+			// Integers may be spelled in hex, octal or binary and with
+			// underscores, like everywhere else in a path.
+			level, err := strconv.ParseInt($1, 0, 32)
+			if err != nil {
+				pathlex.Error(err.Error())
+			}
+			$$ = int(level)
+		}
 	| LAST_P						{ $$ = -1 }
 	;
 
